@@ -153,6 +153,13 @@ func (l *Log) add(kind, text string) {
 	l.mu.Unlock()
 }
 
+// Snapshot returns a copy of the effects recorded so far.
+func (l *Log) Snapshot() []Effect {
+	l.mu.Lock()
+	defer l.mu.Unlock()
+	return append([]Effect{}, l.Effects...)
+}
+
 // Output concatenates all written text.
 func (l *Log) Output() string {
 	l.mu.Lock()
